@@ -60,7 +60,61 @@ _random_mod._urandom = ENT.urandom
 
 if REPO not in sys.path:
     sys.path.insert(0, REPO)
+
+
+# --------------------------------------------------------------------------
+# which lines of the implementation a run executes (sys.monitoring, Python >= 3.12; each line event is disabled after
+# its first hit, so the cost is negligible). Reported in the evidence: generator quality bounds what the tie can see.
+# --------------------------------------------------------------------------
+_COV_ROOT = os.path.realpath(os.path.join(REPO, "psec")) + os.sep
+COV_HIT = set()
+
+
+def _cov_start():
+    mon = getattr(sys, "monitoring", None)
+    if mon is None:
+        return False
+    try:
+        mon.use_tool_id(3, "psec-verif-lines")
+    except ValueError:
+        return False
+
+    def on_line(code, line):
+        fn = code.co_filename
+        if fn.startswith(_COV_ROOT):
+            COV_HIT.add((fn[len(_COV_ROOT):], line))
+        return mon.DISABLE
+    mon.register_callback(3, mon.events.LINE, on_line)
+    mon.set_events(3, mon.events.LINE)
+    return True
+
+
+COV_ON = _cov_start()
 import psec  # noqa: E402
+
+
+def coverage_report():
+    """per source file: executable lines (from the compiled code objects), lines executed in this process, lines missed"""
+    if not COV_ON:
+        return None
+    import types
+    rep = {}
+    for name in sorted(os.listdir(_COV_ROOT)):
+        if not name.endswith(".py"):
+            continue
+        try:
+            code = compile(open(os.path.join(_COV_ROOT, name)).read(), os.path.join(_COV_ROOT, name), "exec")
+        except (OSError, SyntaxError):
+            continue
+        lines, todo = set(), [code]
+        while todo:
+            c = todo.pop()
+            lines |= {ln for _, _, ln in c.co_lines() if ln}
+            todo += [k for k in c.co_consts if isinstance(k, types.CodeType)]
+        hit = {ln for f, ln in COV_HIT if f == name}
+        rep[name] = {"lines": len(lines), "hit": len(lines & hit), "missed": sorted(lines - hit)}
+    return rep
+
 from psec import tr31 as _tr31  # noqa: E402
 from psec import mac as _mac  # noqa: E402
 
